@@ -27,6 +27,8 @@ func isCallNamed(t *Term, name string) bool {
 }
 
 func runC06(c *Ctx) {
+	runC06SessionWiring(c)
+	runC06ResolverQueues(c)
 	p, fx := c.P, c.Fx
 
 	// ---- O1/O2: victim filters of preempt and consolidation (closures returned by the filter builders)
@@ -771,4 +773,102 @@ func runC06VictimJob(c *Ctx) {
 		}
 	}
 	c.Floor("O13", "PROV VictimInfo.Job stores", n, 1)
+}
+
+// runC06SessionWiring (O14): the session keeps one list of plugin callbacks per extension point ("<Point>Fns"); a
+// plugin adds to it with Add<Point>Fn and the actions evaluate it through Session.<Point>. An evaluator that ranges
+// over another point's list (the preempt victim filter running the reclaim filters) type-checks whenever the two
+// points share a signature — and silently applies the wrong policy (the reclaim min-runtime to preemption).
+// Decided: every Add* method appends to, and every evaluator ranges over, the list that its own name designates;
+// the two historical name deviations are a reviewed table.
+func runC06SessionWiring(c *Ctx) {
+	p := c.P
+	norm := func(s string) string {
+		s = strings.TrimPrefix(s, "Add")
+		s = strings.TrimPrefix(s, "Get")
+		s = strings.TrimSuffix(s, "Fns")
+		s = strings.TrimSuffix(s, "Fn")
+		return s
+	}
+	reviewed := map[string]string{
+		"IsJobOverQueueCapacityFn":     "IsJobOverCapacityFns",
+		"MutateBindRequestAnnotations": "BindRequestMutateFns",
+	}
+	n := 0
+	for _, fn := range p.FuncsIn(pkgFramework) {
+		if isTestdataOrMock(fn) || fn.Parent() != nil || fn.Signature.Recv() == nil {
+			continue
+		}
+		if n2 := namedOf(fn.Signature.Recv().Type()); n2 == nil || n2.Obj().Name() != "Session" {
+			continue
+		}
+		// the *Fns fields of the session this method touches
+		fields := map[string]token.Pos{}
+		for _, in := range instrsIn(fn, func(in ssa.Instruction) bool { _, ok := in.(*ssa.FieldAddr); return ok }) {
+			fa := in.(*ssa.FieldAddr)
+			fv := fieldOfAddr(fa)
+			if fv == nil || !strings.HasSuffix(fv.Name(), "Fns") || fa.X != ssa.Value(fn.Params[0]) {
+				continue
+			}
+			fields[fv.Name()] = instrPos(in)
+		}
+		if len(fields) == 0 || fn.Name() == "clear" || strings.HasPrefix(fn.Name(), "open") || strings.HasPrefix(fn.Name(), "close") {
+			continue
+		}
+		n++
+		var names []string
+		for f := range fields {
+			names = append(names, f)
+		}
+		sort.Strings(names)
+		ok := len(names) == 1 && (strings.EqualFold(norm(names[0]), norm(fn.Name())) || reviewed[fn.Name()] == names[0])
+		c.Check(ok, "O14", "REG", funcKey(fn)+": uses the callback list of its own extension point", fn.Pos(), strings.Join(names, ", "),
+			"the session method touches the callback list(s) "+strings.Join(names, ", ")+", which is not the list its name designates: the callbacks registered for another extension point are evaluated (or a registration lands in the wrong list) — e.g. the preempt victim filter applies the reclaim min-runtime")
+	}
+	c.Floor("O14", "REG session methods over callback lists", n, 40)
+}
+
+// runC06ResolverQueues (O15): the min-runtime of a workload is inherited along its queue's ancestors; the resolver
+// walks them in the queue map it was constructed with. That map must be the session's: a plugin field read before it
+// is assigned hands the resolver a nil map — leaf-level and default values still work, every min-runtime configured on
+// a department is silently ignored.
+func runC06ResolverQueues(c *Ctx) {
+	f := c.Anchor("O15", "pkg/scheduler/plugins/minruntime", "minruntimePlugin", "OnSessionOpen")
+	if f == nil {
+		return
+	}
+	n := 0
+	for _, in := range instrsIn(f, func(in ssa.Instruction) bool {
+		cc, ok := in.(ssa.CallInstruction)
+		return ok && calleeOf(cc) != nil && calleeOf(cc).Name() == "NewResolver"
+	}) {
+		n++
+		arg := in.(ssa.CallInstruction).Common().Args[0]
+		t := termOf(arg)
+		ok := strings.HasSuffix(t.String(), "ClusterInfo.Queues")
+		why := t.String()
+		if !ok {
+			// a plugin field: it must have been assigned the session's queues on every path before this call
+			if ld, isLd := arg.(*ssa.UnOp); isLd && ld.Op == token.MUL {
+				if fa, isFA := ld.X.(*ssa.FieldAddr); isFA && fieldOfAddr(fa) != nil {
+					fname := fieldOfAddr(fa).Name()
+					isAssign := func(x ssa.Instruction) bool {
+						st, isSt := x.(*ssa.Store)
+						if !isSt {
+							return false
+						}
+						fa2, isFA2 := st.Addr.(*ssa.FieldAddr)
+						return isFA2 && fieldOfAddr(fa2) != nil && fieldOfAddr(fa2).Name() == fname && strings.HasSuffix(termOf(st.Val).String(), "ClusterInfo.Queues")
+					}
+					this := in
+					_, _, found := reachAvoiding([]cfgPos{entryPos(f)}, func(x ssa.Instruction) bool { return x == this }, isAssign, nil)
+					ok = !found
+					why = "field " + fname + " assigned from ssn.ClusterInfo.Queues before the call"
+				}
+			}
+		}
+		c.Check(ok, "O15", "PROV", funcKey(f)+": the min-runtime resolver walks the session's queue map", instrPos(in), why,
+			"the resolver is constructed with "+trunc(t.String(), 80)+", which is not (yet) the session's queue map: min-runtimes configured on non-leaf queues are not found, and protected workloads are evicted inside their min runtime")
+	}
+	c.Floor("O15", "PROV resolver constructions", n, 1)
 }
